@@ -1317,7 +1317,13 @@ def dep_case(case: dict) -> dict:
                 except Exception as e:  # noqa
                     o.v("computed-field", f"xmcd:crc:raises:{_exc_kind(e)}", f"{iid} {what}: {e}")
         # ---- the area's own schema must not refuse what the area loads and exports ----------------------------------
-        if not t.get("omit"):
+        # quick: the values where a range or a type in the schema can bite: all ones, the top bit, the zero-byte patterns
+        _w = t.get("width") or (r0.field(t["field"]).width if (r0 is not None and t.get("field") and r0.field(t["field"])) else 0)
+        schema_now = rt_all or t.get("zero_byte") or t.get("enum") and per_field_rt.get("enum|" + fkey, 0) < 1 or \
+            (_w and t["form"] in ("field", "reg", "group") and t["raw"] in ((1 << _w) - 1, 1 << (_w - 1)))
+        if t.get("enum"):
+            per_field_rt["enum|" + fkey] = 1
+        if not t.get("omit") and schema_now:
             for label, c2 in schema_forms(st, regname, t, cfg):
                 bad = schema_refuses(st, c2)
                 if bad:
@@ -1551,6 +1557,8 @@ def hist_case(case: dict) -> dict:
         return ob
 
     def cfg_of(ob) -> str:
+        if kind == "xmcd":
+            return ""  # its configuration is a function of the registers it exports; every look costs a deep copy (0.3 s)
         return core.jdump(fast_config(area, kind, ob))
 
     def same(a: bytes, b: bytes) -> bool:
@@ -2018,7 +2026,8 @@ def run(ctx: core.Ctx) -> None:
     if len(allcases) != len(cli_cases) + len(dep_cases):
         ctx.exhaustive = False
     # one pool task = the cases of one instance, cut into pieces of roughly equal cost
-    per_task = {"fcb": 4, "xmcd": 1, "fuses": 8, "pfr.cmpa": 10, "pfr.cfpa": 10}
+    # (every task builds the base state and compiles the schema of its instance once: 0.5-1.5 s)
+    per_task = {"fcb": 6, "xmcd": 1, "fuses": 16, "pfr.cmpa": 20, "pfr.cfpa": 20}
     tasks: list[dict] = []
     cur: list[dict] = []
     for c in allcases:
